@@ -17,6 +17,11 @@ EXTENDS Naturals, Integers, Sequences, FiniteSets, TLC, SequencesExt
 NullV == [t |-> "null"]
 BoolV(b) == [t |-> "bool", v |-> b]
 IntV(i) == [t |-> "int", v |-> i]
+\* a float is recorded in halves (the generator uses multiples of 0.5 only): [t |-> "float", v |-> 2 * value]
+FloatV(h) == [t |-> "float", v |-> h]
+StrV(x) == [t |-> "str", v |-> x]
+\* the order of the strings the generator uses
+StrRank(x) == CASE x = "" -> 0 [] x = "a" -> 1 [] x = "b" -> 2 [] x = "c" -> 3 [] OTHER -> 4
 IsNull(x) == x.t = "null"
 IsTrue(x) == x.t = "bool" /\ x.v = TRUE
 
@@ -131,10 +136,20 @@ Agg(g, it, B) ==
   LET vals == {<<b, Eval(g, b, it.e)>> : b \in B}
       nn == {x \in vals : ~IsNull(x[2])}
       ints == {<<x[1], x[2].v>> : x \in {y \in nn : y[2].t = "int"}}
+      \* numbers in halves: sum / min / max over a float property, or over integers and floats together
+      anyf == \E y \in nn : y[2].t = "float"
+      nums == {<<x[1], IF x[2].t = "int" THEN 2 * x[2].v ELSE x[2].v>> : x \in {y \in nn : y[2].t \in {"int", "float"}}}
+      allf == nn # {} /\ \A y \in nn : y[2].t = "float"
+      alls == nn # {} /\ \A y \in nn : y[2].t = "str"
+      strs == {x[2].v : x \in nn}
   IN CASE it.agg = "count" -> IntV(Cardinality(nn))
-       [] it.agg = "sum" -> IntV(SumInts(ints))
-       [] it.agg = "min" -> IF ints = {} THEN NullV ELSE IntV(MinOf({x[2] : x \in ints}))
-       [] it.agg = "max" -> IF ints = {} THEN NullV ELSE IntV(MaxOf({x[2] : x \in ints}))
+       [] it.agg = "sum" -> IF anyf THEN FloatV(SumInts(nums)) ELSE IntV(SumInts(ints))
+       [] it.agg = "min" -> IF allf THEN FloatV(MinOf({x[2] : x \in nums}))
+                            ELSE IF alls THEN StrV(CHOOSE x \in strs : \A y \in strs : StrRank(x) <= StrRank(y))
+                            ELSE IF ints = {} THEN NullV ELSE IntV(MinOf({x[2] : x \in ints}))
+       [] it.agg = "max" -> IF allf THEN FloatV(MaxOf({x[2] : x \in nums}))
+                            ELSE IF alls THEN StrV(CHOOSE x \in strs : \A y \in strs : StrRank(x) >= StrRank(y))
+                            ELSE IF ints = {} THEN NullV ELSE IntV(MaxOf({x[2] : x \in ints}))
 KeyIdx(q) == {i \in DOMAIN q.ret : ~IsAgg(q.ret[i])}
 GroupKey(g, q, b) == [i \in KeyIdx(q) |-> Eval(g, b, q.ret[i].e)]
 AggRows(g, q) ==
